@@ -112,6 +112,7 @@ def gen_case(seed, tier):
     config = {"shape": shape, "depth": depth, "init": init, "domains": doms, "wports": wports, "rports": rports, "wrap": wrap}
     # an inserter's control wider than one bit: asserted when non-zero, for the memory's ports as for any register
     config["ctl_wide"] = ctl_wide = [k for k in range(nctl) if cfg.random() < 0.25]
+    config["ctl_signed"] = [k for k in range(nctl) if k not in ctl_wide and cfg.random() < 0.15]      # signed(1): asserted when -1
 
     aw = max(0, (depth - 1).bit_length()) if depth > 0 else 0
     nsteps = cfg.randint(20, 160) if tier == "quick" else cfg.randint(20, 800)
@@ -272,7 +273,9 @@ def build_dut(config):
         if w[0] == "rename":
             dut = DomainRenamer(dict(w[1]))(dut)
         else:
-            c = ctls.setdefault(w[2], Signal(2 if w[2] in config.get("ctl_wide", []) else 1, name="ctl%d" % w[2]))
+            from amaranth.hdl import signed as _signed
+            c = ctls.setdefault(w[2], Signal(_signed(1) if w[2] in config.get("ctl_signed", []) else
+                                             2 if w[2] in config.get("ctl_wide", []) else 1, name="ctl%d" % w[2]))
             dut = (EnableInserter if w[0] == "enable" else ResetInserter)({w[1]: c})(dut)
     return dut, mem, wps, rps, ctls
 
